@@ -88,7 +88,7 @@ export async function run() {
         rep.violation(
           explained ? `C11 runtime intersection: each member rejects the keys its siblings declare : strict=false default=true undeclared-free=true` : `C11 ${skel} : strict=${strict} default=${def} undeclared-free=${expected}`,
           `strict validator of \`${render(spec0)}\` on ${src}: strict=${strict}, default=${def}, reference says ${expected ? "no undeclared key" : "an undeclared key is present"}`,
-          { engine: "E-src", program: text, parser: name, type: render(spec0), value: src, strict, default: def, expected },
+          { engine: "E-src", program: text, parser: name, type: render(spec0), case_id: skel, value: src, strict, default: def, expected },
           explained ? {} : { valueSrc: src, valueKind: valueKind(v) },
         );
       } else if (samples.length < 4 && def && !expected && stats.strictRejectsOnly % 301 === 1) samples.push({ type: render(spec0), value: toSrc(vx), default: def, strict });
